@@ -233,6 +233,7 @@ pub fn resolve_contents(sc: &Scenario, corpus: &mut Corpus) -> Vec<RContent> {
                 }
             }
             Content::Hex(b) => RContent { bytes: Arc::new(b.clone()), expect: Expect::Unknown },
+            Content::Fill { len, byte } => RContent { bytes: Arc::new(vec![*byte; (*len).min(8 << 20)]), expect: Expect::Unknown },
         };
         out.push(rc);
     }
